@@ -57,6 +57,13 @@ def exponent_of(p):
   return e
 
 
+class NonInteger(ValueError):
+  """the term has the (exact) non-integral value .value here - e.g. 2 * 4 ** (m - 1) at m = 0, a float that int() truncates"""
+  def __init__(self, value):
+    ValueError.__init__(self, "fraction")
+    self.value = value
+
+
 def _ev_int(p, env):
   """integer value of an extracted term under env {Atom: int} (pow / shifts / floor division / mod / min / max / abs); raises ValueError when not evaluable."""
   from fractions import Fraction
@@ -72,7 +79,7 @@ def _ev_int(p, env):
       term *= Fraction(_ev_atom(a, env)) ** e
     tot += term
   if tot.denominator != 1:
-    raise ValueError("fraction")
+    raise NonInteger(tot)
   return int(tot)
 
 
@@ -84,7 +91,10 @@ def _ev_atom(a, env):
   if k == "pow" and len(args) == 2:
     b, e = _ev_int(args[0], env), _ev_int(args[1], env)
     if e < 0:
-      raise ValueError("negative exponent")
+      if b == 0:
+        raise ValueError("zero")
+      from fractions import Fraction
+      return Fraction(1, b ** -e)              # an int base with a negative exponent: the float 1 / b^-e (exact for the bases at hand)
     return b ** e
   if k == "shl":
     return _ev_int(args[0], env) << _ev_int(args[1], env)
@@ -106,7 +116,10 @@ def _ev_atom(a, env):
   if k == "abs":
     return abs(_ev_int(args[0], env))
   if k in ("int",) and len(args) == 1:
-    return _ev_int(args[0], env)
+    try:
+      return _ev_int(args[0], env)
+    except NonInteger as ni:
+      return int(ni.value)                     # int() truncates towards zero
   raise ValueError("atom %s" % k)
 
 
@@ -125,6 +138,9 @@ def grid_disagreement(w, n, m, fname):
           if all(regions.eval_cond(c, val) == pol for c, pol, node in s_.pc):
             got = _ev_int(v_, env)
             break
+        except NonInteger as ni:
+          return "%s(%d, %d) evaluates to the non-integer %s (int() truncates it to %d); the number of sequences of length %d with linear complexity %d is %d" % (
+              fname, nv, mv, ni.value, int(ni.value), nv, mv, refmath.lfsr_count(nv, mv))
         except (regions.Unknown, ValueError, ZeroDivisionError, TypeError):
           got = None
           break
